@@ -169,7 +169,30 @@ impl Stage for TableSeq {
                 if let Err((k, d)) = check_shape(&it.local, &it.routers, &post, &it) {
                     return Outcome::violation(k, format!("after op #{n} {op:?}: {d}"));
                 }
+                if let Applied::Response { id, addr, named, named_addr } = &applied {
+                    // step 1 (already applied): the responder offered as good
+                    if let Err((k, d)) = check_offer(&it.local, &it.routers, &pre, &post, true, id, addr) {
+                        return Outcome::violation(k, format!("op #{n} (responder): {d}"));
+                    }
+                    // step 2: the real add_nodes call; the responder is offered again (no structural
+                    // change) and the named node as hearsay
+                    let mid = post.clone();
+                    it.respond(*id, *addr, *named, *named_addr);
+                    let post2 = dump(&it.table);
+                    if let Err((k, d)) = check_shape(&it.local, &it.routers, &post2, &it) {
+                        return Outcome::violation(k, format!("after op #{n} {op:?} (add_nodes): {d}"));
+                    }
+                    if named != id || named_addr != addr {
+                        if let Err((k, d)) = check_offer(&it.local, &it.routers, &mid, &post2, false, named, named_addr) {
+                            return Outcome::violation(k, format!("op #{n} (named node via add_nodes): {d}"));
+                        }
+                    }
+                    max_buckets = max_buckets.max(post2.len());
+                    pre = post2;
+                    continue;
+                }
                 match &applied {
+                    Applied::Response { .. } => unreachable!(),
                     Applied::Offer { good, id, addr } => match check_offer(&it.local, &it.routers, &pre, &post, *good, id, addr) {
                         Ok((m, s)) => {
                             mixed_offer |= m;
@@ -196,7 +219,7 @@ impl Stage for TableSeq {
         })
     }
     fn rule(&self) -> String {
-        "sequences of 20..300(400) operations on the real RoutingTable under a paused clock: offers as responder (good) / hearsay (questionable) with ids built relative to the local id (flip bit b, b absolute 0..159 or relative to the current last bucket; equal to the local id; all-zero filler id; last-bit neighbours), repeats of existing slots, id/address clashes, query-sent / query-received events, time steps (1 s, ~30 s, ~15 min, 1 h); router set fixed before the first offer. After every op: shape invariants + transition rules. Non-trivial: reached >=3 buckets and contained an offer into a bucket holding good, questionable and free/bad slots at once, or a split of such a bucket".into()
+        "sequences of 20..300(400) operations on the real RoutingTable under a paused clock: offers as responder (good) / hearsay (questionable) with ids built relative to the local id (flip bit b, b absolute 0..159 or relative to the current last bucket; equal to the local id; all-zero filler id; last-bit neighbours), responses naming another node (RoutingTable::add_nodes, as the handler calls it), repeats of existing slots, id/address clashes, query-sent / query-received events, time steps (1 s, ~30 s, ~15 min, 1 h); router set fixed before the first offer. After every op: shape invariants + transition rules. Non-trivial: reached >=3 buckets and contained an offer into a bucket holding good, questionable and free/bad slots at once, or a split of such a bucket".into()
     }
     fn sample(&self, c: &TableCase) -> serde_json::Value {
         serde_json::json!({"local": crate::bcodec::hex(&c.local), "routers": c.routers.len(), "n_ops": c.ops.len(), "first_ops": c.ops.iter().take(6).map(|o| format!("{o:?}")).collect::<Vec<_>>()})
